@@ -315,6 +315,24 @@ _RE_CALLTAIL = re.compile(r'(.*\)) -> (?:\[return: bb(\d+), .*\]|unwind .*|bb\d+
 _RE_ASSIGN = re.compile(r'(\S+|\(.*?\)) = (.*)$')
 _NOPS = ('StorageLive', 'StorageDead', 'nop', 'FakeRead', 'PlaceMention', 'Retag', 'AscribeUserType', 'Coverage', 'Deinit',
          'ConstEvalCounter', 'BackwardIncompatibleDropHint')
+def _match_open(head):
+    """index of the '(' matching the final ')' of head (string and char literals are skipped)"""
+    stack, i, n, last = [], 0, len(head), None
+    while i < n:
+        ch = head[i]
+        if ch == '"':
+            i += 1
+            while head[i] != '"':
+                if head[i] == '\\': i += 1
+                i += 1
+        elif ch == "'":
+            if i + 1 < n and head[i+1] == '\\':
+                i = head.index("'", i + 3 if head[i+2] == "'" else i + 2)
+            elif i + 2 < n and head[i+2] == "'": i += 2
+        elif ch == '(': stack.append(i)
+        elif ch == ')': last = stack.pop()
+        i += 1
+    return last
 @functools.lru_cache(maxsize=None)
 def c_stmt(st):
     st = st.rstrip(';')
@@ -340,16 +358,7 @@ def c_stmt(st):
     mm = _RE_CALLTAIL.match(st)
     if mm and not st.startswith(('assert(', 'drop(', 'switchInt(')):
         head, ret = mm.group(1), mm.group(2)
-        depth, j, instr = 0, len(head) - 1, False
-        while j >= 0:
-            ch = head[j]
-            if ch == '"' and (j == 0 or head[j-1] != '\\'): instr = not instr
-            elif not instr:
-                if ch == ')': depth += 1
-                elif ch == '(':
-                    depth -= 1
-                    if depth == 0: break
-            j -= 1
+        j = _match_open(head)
         argstr = head[j+1:-1]; pre = head[:j]
         dm = re.match(r'^(_\d+|\(.*?\)) = (.*)$', pre)
         if dm and not pre.startswith('<'): dst, callee = c_place(dm.group(1)), dm.group(2)
